@@ -62,6 +62,21 @@ CHECKS = [
   "text": "Narrow claim. Decides: the window view is created read-only; every raising guard of sliding_window_view precedes the striding and strides are read after the contiguity normalisation; the layers' "
           "output-size checks dominate window creation; the dilated extent a layer accepts equals the one sliding_window_view enforces (ConvND fails: known finding D7) and the guard is at least as strict as "
           "the placement formula (no out-of-bounds placement)." + NOT_DECIDED + "everything numeric: the window equation, conv/pool/batchnorm/gru/softmax/loss formulas.", "note": NOTE},
+ {"property_id": "C04", "technique": "static: ownership/alias abstract interpretation of every op's forward pass vs its can_return_view flag; sibling agreement of in-place spellings; def-use shape of base assignment and mirroring",
+  "text": "Decides: an op whose forward result may be, or may view, an operand's array declares can_return_view (so Tensor._op runs view detection); in-place dunders use the same Operation as the "
+          "out-of-place ones, target self and return self; public tensors change only through mirror_tensor (identity-preserving shallow copy), views are replayed on their updated parents, parents first; "
+          "the base handed to a view is None or the memory owner, the three sharing configurations are recognised, views are registered and record replay arguments." + NOT_DECIDED +
+          "values, shares_memory equivalence and .base correctness across arbitrary histories (run-time graph surgery).", "note": NOTE},
+ {"property_id": "C05", "technique": "static: def-use chain of the in-place kernel's out= target to a private copy, must-call / dominance of placeholder creation and re-routing, condition-exactness of the glue ops",
+  "text": "Narrow claim. Decides: with tracking on the in-place kernel writes into (a placeholder view replay of) graph.base.tensor.copy() made after the graph was duplicated, its operands are placeholders; "
+          "placeholders mirror the originals and take over exactly their consumers, for the base and every view child; duplication dominates the kernel which dominates every mirror, failures restore the "
+          "graph; ApplyMask/UnView are created under exactly their conditions with the placeholder operands." + NOT_DECIDED + "the gradient values themselves (overwritten-region zeroing, "
+          "last-write resolution for repeated indices, mask routing): value-level, run-time.", "note": NOTE},
+ {"property_id": "C12", "technique": "static: ownership/alias abstract interpretation (origins P/IN/S/N x SAME/VIEW, guard refinement, interprocedural mutation summaries) over every op method, helper and wrapper",
+  "text": "Decides: every write site (item/augmented assignment, out=, ufunc.at, copyto..., in-place methods, calls that mutate a parameter) in every op forward/backward, their helpers and the public "
+          "wrappers targets function-allocated or op-owned memory, never something that may be or view caller-owned memory (one reasoned exemption); Tensor.backward does not write its seed; the copy rule "
+          "of Operation.backward provably yields an engine-owned array for the worst case it must handle; no backward_var returns an input's array itself; cached state is returned only by single-variable "
+          "ops; the seed store fails (known finding D8)." + NOT_DECIDED + "np.shares_memory of concrete arrays; value checksums.", "note": NOTE},
 ]
 _BUILT = {c["property_id"] for c in CHECKS}
 NOT_APPLICABLE = [
